@@ -1,6 +1,6 @@
 (* C14 — executable model of the global-slot machinery behind REPL-style evaluation:
      fast/global.go      CompBinds {Binds, BindNum, IntBindNum, IntBindMax}, Env {Vals, Ints, IntAddressTaken}
-     fast/declaration.go Comp.NewBind (IntBind/VarBind choice), CompBinds.NewBind (slot reuse on redefinition)
+     fast/declaration.go Comp.NewBind (IntBind/VarBind choice), CompBinds.NewBind (slot reuse on redefinition with an identical type)
      fast/repl.go        Interp.CompileAst (updateIntBindMax, snapshot/restore), Interp.prepareEnv, Interp.RunExpr
      fast/address.go     Var.Address (&x of an Ints slot sets IntAddressTaken; of a Vals slot returns the cell)
    One evaluation = compile every statement of the input (mutating the bind table), and only if all of
@@ -19,11 +19,20 @@ Definition NoIndex : Z := -1.
 
 (* how a type is stored: 1 slot of Env.Ints (bool, ints, uints, floats, complex64), 2 slots (complex128),
    or boxed in a reflect.Value held in Env.Vals (everything else) *)
-Inductive kind := KInt1 | KCplx | KBox.
+Inductive kind := KInt1 | KCplx | KBox
+| KInt1T (t : Z)     (* any other one-slot type (int8, float64, bool, a named type ...); t identifies the type *)
+| KBoxT (t : Z).     (* any other boxed type (slices, structs, pointers, function types ...) *)
 Inductive cls := CInt | CVar | CFunc | CConst.          (* IntBind VarBind FuncBind ConstBind *)
 
 Definition need (k : kind) : Z := match k with KCplx => 2 | _ => 1 end.
-Definition is_intkind (k : kind) : bool := match k with KBox => false | _ => true end.
+Definition is_intkind (k : kind) : bool := match k with KBox | KBoxT _ => false | _ => true end.
+(* xr.Type.IdenticalTo: KInt1 is int, KCplx complex128, KBox string; the other types carry their identity *)
+Definition kind_eqb (a b : kind) : bool :=
+  match a, b with
+  | KInt1, KInt1 | KCplx, KCplx | KBox, KBox => true
+  | KInt1T s, KInt1T t | KBoxT s, KBoxT t => s =? t
+  | _, _ => false
+  end.
 Definition is_cplx (k : kind) : bool := match k with KCplx => true | _ => false end.
 Definition is_CInt (c : cls) : bool := match c with CInt => true | _ => false end.
 Definition cls_code (c : cls) : Z := match c with CInt => 0 | CVar => 1 | CFunc => 2 | CConst => 3 end.
@@ -55,7 +64,9 @@ Definition newBind (c : comp) (x : name) (class0 : cls) (k : kind) (cv : Z) : co
   let idx0 :=
     match bget (binds c) x with
     | Some b =>
-        if Bool.eqb (is_CInt (bcls b)) (is_CInt class) && (is_cplx (bkind b) || negb (is_cplx k))
+        (* commit C14-4: the slot of the previous bind is reused only for an identical type; before it the
+           test was [is_cplx (bkind b) || negb (is_cplx k)] (not more slots than before) *)
+        if Bool.eqb (is_CInt (bcls b)) (is_CInt class) && kind_eqb (bkind b) k
         then bidx b else NoIndex
     | None => NoIndex
     end in
@@ -162,7 +173,7 @@ Inductive stmt :=
 | SSet (x : name) (e : expr)              (* x = e *)
 | SStore (p : expr) (e : expr)            (* *p = e *)
 | SRead (e : expr)                        (* expression statement; its value is the result of the input *)
-| SFunc (f : name) (ok : bool)            (* func f() {...}; ok=false: the body fails to compile *)
+| SFunc (f : name) (t : Z) (ok : bool)    (* func f() {...} of the function type identified by t; ok=false: the body fails to compile *)
 | SConst (x : name) (z : Z)
 | SNop                                    (* type/method declaration, call of an opaque function ... *)
 | SBad.                                   (* mentions an undefined identifier: compile error *)
@@ -263,10 +274,10 @@ Definition compileStmt (c : comp) (s : stmt) : option (comp * list instr) :=
       | Some ce => Some (c, [IRead ce])
       | None => None
       end
-  | SFunc f ok =>
+  | SFunc f t ok =>
       (* Comp.DeclFunc: the name is declared before the body is compiled (recursion); on a compile error
          of the body the deferred function restores the previous binding of the name *)
-      let (c', b) := newBind c f CFunc KBox 0 in
+      let (c', b) := newBind c f CFunc (KBoxT t) 0 in
       if ok then
         if bidx b =? NoIndex then Some (c', []) else Some (c', [IFun (bidx b) f])
       else None
@@ -292,7 +303,7 @@ Fixpoint compileAll (c : comp) (ss : list stmt) (acc : list instr) : comp * opti
       | Some (c', code) => compileAll c' ss' (acc ++ code)
       | None =>
           match s with
-          | SFunc f false => (funcRestore c (fst (newBind c f CFunc KBox 0)) f, None)
+          | SFunc f t false => (funcRestore c (fst (newBind c f CFunc (KBoxT t) 0)) f, None)
           | _ => (c, None)
           end
       end
@@ -415,7 +426,7 @@ Record obs := mkObs {
 }.
 
 Definition declared (ss : list stmt) : list name :=
-  flat_map (fun s => match s with SVar x _ _ => [x] | SFunc f _ => [f] | SConst x _ => [x] | _ => [] end) ss.
+  flat_map (fun s => match s with SVar x _ _ => [x] | SFunc f _ _ => [f] | SConst x _ => [x] | _ => [] end) ss.
 
 Definition lookupCI (c : comp) (x : name) : Z * Z :=
   match bget (binds c) x with Some b => (cls_code (bcls b), bidx b) | None => (-1, -1) end.
